@@ -478,7 +478,7 @@ def main(tier, replay=None):
 
     n_b = 240 if thorough else 18
     n_s = 160 if thorough else 12
-    n_c = 120 if thorough else 10
+    n_c = 80 if thorough else 10
     cases, goals, owner, bad_new, known_hits = [], [], [], [], {}
     for k in range(n_b + n_s + n_c):
         dtype = "float64" if k % 3 != 2 else "float32"
